@@ -64,6 +64,8 @@ func (m *Model) expect(sn any, v any, p Pos) any {
 			if ok {
 				ip := p
 				ip.Kind = "item"
+				ip.InNamedArr = p.Named || p.InNamedArr
+				ip.Named = false
 				out[i] = m.expect(items, e, ip)
 			} else {
 				out[i] = e
@@ -134,6 +136,8 @@ func (m *Model) expectObject(s S, v map[string]any, p Pos) any {
 			if hasAP {
 				pp := p
 				pp.Kind = "mapval"
+				pp.Named = false
+				pp.InNamedArr = false
 				out[k] = m.expect(ap, val, pp)
 			} else {
 				out[k] = val
@@ -148,12 +152,19 @@ func (m *Model) expectObject(s S, v map[string]any, p Pos) any {
 		if present && val != nil {
 			pp := p
 			pp.Kind = "prop"
+			pp.Named = false
+			pp.InNamedArr = false
 			pp.File = pa.file
 			out[k] = m.expect(pa.s, val, pp)
 			continue
 		}
 		if pm != nil {
 			if d, ok := pm["default"]; ok {
+				if m.dev("INLINE_STRUCT_NO_DEFAULTS") && noMethodsStruct(p) {
+					// as built: an inline struct without unmarshal method (map value, item of a named array) applies no defaults
+					m.fire("INLINE_STRUCT_NO_DEFAULTS")
+					continue
+				}
 				out[k] = jsonv.Clone(d)
 				continue
 			}
